@@ -171,6 +171,7 @@ class SymPaths:
         self.decisions_log = []
         self.library = []
         self.eigh_calls = []
+        self._sign_cache = {}
         self._sync_side()
 
     def _sync_side(self):
@@ -202,6 +203,34 @@ class SymPaths:
 
     def register_eigh(self, m, w, V):
         self.eigh_calls.append((m, w, V))
+
+    def sign_of(self, x):
+        """+1 / -1 when the hypotheses of the current path entail x > 0 / x < 0, else 0 (cheap, cached per path)"""
+        if x.has_i():
+            return 0
+        if x.is_const_field():
+            r = SC.compare("<", x)
+            return -1 if r is True else (1 if SC.compare("<", -x) is True else 0)
+        key = (x.key(), len(self.pm.pc))
+        cache = self.__dict__.setdefault("_sign_cache", {})
+        if key in cache:
+            return cache[key]
+        z = self.tr.sym(x)
+        self._sync_side()
+        out = 0
+        self.pm.solver.push()
+        self.pm.solver.add(z <= 0)
+        if self.pm.solver.check() == z3.unsat:
+            out = 1
+        self.pm.solver.pop()
+        if out == 0:
+            self.pm.solver.push()
+            self.pm.solver.add(z >= 0)
+            if self.pm.solver.check() == z3.unsat:
+                out = -1
+            self.pm.solver.pop()
+        cache[key] = out
+        return out
 
     def side_condition(self, den):
         self.side_conditions.append(den)
